@@ -1597,6 +1597,14 @@ class Interp:
                         if n is not None:
                             origin = ("place", v.fid, v.local, v.projs)
                             return VRegion(origin, Lin.const(0), Lin.const(n), pt["mut"])
+                    if isinstance(to, dict) and to["k"] == "slice" and not self.is_u8(to["of"]):
+                        # &[T; N] -> &[T] for non-byte T: the reference itself (models look at the array behind it)
+                        arr = self.load(st, ("place", v.fid, v.local, v.projs))
+                        if isinstance(arr, VArray) and arr.n is not None:
+                            if arr.ety is None:
+                                arr = VArray(arr.elems, arr.n, arr.key, self.rt(to["of"]), init=arr.init)
+                                self.store(st, ("place", v.fid, v.local, v.projs), arr)
+                            return v
                 return VOpaque(t, ("unsize", fresh_id()))
             return v if v is not None else VOpaque(t, ("unsize", fresh_id()))
         if kind == "PtrToPtr":
